@@ -756,6 +756,186 @@ static void check_peak_winlens(Ctx& ctx, bool T) {
         for (int wl = 129; wl <= 600; ++wl) run(wl, {WK_HAMM, WK_RECT}, false);
 }
 
+// ------------------------------------------------------------------------------------------------ silent segments
+// Signals that contain whole segments of EXACT zeros (muted stretches): the estimate is the mean over ALL segments, silent
+// ones included.  Letters over a record of 8 segments (N = winlen + 7 hop + r): a zero run of winlen + hop samples starting
+// at a segment start (aligned) or hop/2 later (unaligned), a short run that silences no whole segment, leading / trailing
+// silence, a burst of one window length inside silence, a single non-zero sample, and the all-zero record.
+// Oracles: density sum against own segmentation (silent segments counted; all-zero record: the sum must be 0);
+// power-scaled peak of a gated bin-centred complex tone = A^2 mean_seg (sum_n w[n] g[n])^2 / (sum w)^2 with the gate g of
+// the harness's own segmentation (every term of the windowed sum is in phase at the tone's bin, so this is exact for any
+// non-negative window; for an ungated tone it is the statement's A^2); real tones only where every segment is either
+// whole or silent and the rectangular window of nfft points makes them leakage-free (A^2/2 times the fraction of live
+// segments); coherence range / unity for scaled copies of such signals.
+static const char* SILN[8] = {"gap_aligned", "gap_unaligned", "gap_short", "lead", "trail", "burst", "onesample", "allzero"};
+static std::vector<char> sil_gate(int letter, int N, int wl, int st, int rem) {
+    std::vector<char> g((size_t)N, 1);
+    auto zero = [&](long long a, long long b) {
+        for (long long i = std::max(0LL, a); i < std::min((long long)N, b); ++i) g[(size_t)i] = 0;
+    };
+    switch (letter) {
+    case 0: zero(2LL * st, 2LL * st + wl + st); break;
+    case 1: zero(2LL * st + std::max(1, st / 2), 2LL * st + std::max(1, st / 2) + wl + st); break;
+    case 2: zero(2LL * st + 1, 2LL * st + wl - 1); break;
+    case 3: zero(0, (long long)wl + st); break;
+    case 4: zero((long long)N - (wl + st + rem), N); break;
+    case 5: zero(0, 3LL * st), zero(3LL * st + wl, N); break;
+    case 6: zero(0, N), g[(size_t)(2 * st + wl / 2)] = 1; break;
+    default: zero(0, N); break;
+    }
+    return g;
+}
+static Sig gated(const Sig& b, const std::vector<char>& g) {
+    Sig s = b;
+    for (size_t i = 0; i < g.size(); ++i)
+        if (!g[i]) s.re[i] = 0.0, s.im[i] = 0.0;
+    return s;
+}
+
+static void check_silence(Ctx& ctx, bool T) {
+    const std::vector<int> nffts = T ? std::vector<int>{8, 16, 32, 64, 256, 1024} : std::vector<int>{16, 64, 256};
+    const std::vector<int> wks = T ? std::vector<int>{WK_RECT, WK_HAMM, WK_HANN, WK_KAISER, WK_BLACK, WK_BH, WK_COS, WK_GAUSS, WK_TUKEY, WK_HANNP}
+                                   : std::vector<int>{WK_RECT, WK_HAMM, WK_HANN, WK_KAISER};
+    static const double amps[3] = {1e-3, 1, 1e3};
+    for (int nfft : nffts) {
+        const Cfg cfgs[5] = {{nfft, nfft, 0}, {nfft, nfft, nfft / 2}, {nfft, nfft / 2, 0}, {nfft, nfft - 3, 2}, {nfft, nfft / 2, nfft / 2 - 1}};
+        for (const Cfg& c : cfgs) {
+            const int wl = c.wl, st = wl - c.nov, rem = st > 1 ? st - 1 : 0, N = wl + 7 * st + rem, S = 8;
+            for (int wk : wks) {
+                const std::vector<double> w = own_window(wk, wl);
+                if (!usable(w)) continue;
+                ld sw = 0;
+                for (double v : w) sw += v;
+                for (int cplx = 0; cplx < 2; ++cplx) {
+                    // ---- density scaling: power identity, silent segments included
+                    for (int L = 0; L < 8; ++L) {
+                        if (!ctx.take("welch.density_sum", cfg_params(cplx != 0, c, wk).kv("N", N).kv("letter", SILN[L]))) continue;
+                        Sig x = gated(dense(cplx != 0, N, 47), sil_gate(L, N, wl, st, rem));
+                        if (L == 6) {
+                            x.re[(size_t)(2 * st + wl / 2)] = 1.5;
+                            if (cplx) x.im[(size_t)(2 * st + wl / 2)] = -0.5;
+                        }
+                        ctx.nontrivial();
+                        ctx.note(std::string("silence: density ") + SILN[L]);
+                        const Res r = call_welch(x, w, c.nov, nfft, false, 0);
+                        if (!check_shape(ctx, r, cplx != 0, nfft)) continue;
+                        ld s = 0;
+                        for (double v : r.pxx) s += v;
+                        const ld e = ref_density_sum(x, w, c.nov, nfft);
+                        if (e == 0) {   // every windowed segment is silent: the identity demands a zero spectrum
+                            ctx.note("silence: density expectation exactly 0");
+                            if (!(s == 0))
+                                ctx.fail(site_of(cplx != 0), fmt("sum(pxx)=%.15g", (double)s), "0 (every windowed segment is zero)",
+                                         P().kv("aspect", "sum0"));
+                            continue;
+                        }
+                        const double rel = (double)(fabsl(s - e) / e);
+                        ctx.worst("density sum rel err, silent segments", std::isnan(rel) ? INFINITY : rel);
+                        if (!(rel <= 1e-10))
+                            ctx.fail(site_of(cplx != 0), fmt("sum(pxx)=%.15g", (double)s),
+                                     fmt("%.15g = nfft*mean over all %d segments (silent ones included) of sum|seg*win|^2/(win.win)", (double)e, S),
+                                     P().kv("aspect", "sum").kv("ratio", (double)(s / e)));
+                    }
+                    // ---- power scaling of the all-zero record: finite, non-negative, zero
+                    if (ctx.take("welch.shape", cfg_params(cplx != 0, c, wk).kv("N", N).kv("scale", "power").kv("letter", "allzero"))) {
+                        Sig x = gated(dense(cplx != 0, N, 47), sil_gate(7, N, wl, st, rem));
+                        ctx.nontrivial();
+                        const Res r = call_welch(x, w, c.nov, nfft, true, 0);
+                        if (check_shape(ctx, r, cplx != 0, nfft)) {
+                            double mx = 0;
+                            for (double v : r.pxx) mx = std::max(mx, v);
+                            if (!(mx == 0)) ctx.fail(site_of(cplx != 0), fmt("max(pxx)=%.15g", mx), "0 (all-zero input)", P().kv("aspect", "sum0"));
+                        }
+                    }
+                    // ---- power scaling: peak of a gated bin-centred tone
+                    for (int L : {0, 1, 3, 4, 5}) {
+                        const bool whole = c.nov == 0 && L != 1;   // every segment is either whole or silent
+                        if (!cplx && !(whole && wk == WK_RECT && wl == nfft)) continue;
+                        for (long long k : {(long long)(nfft / 4), -(long long)(nfft / 8)}) {
+                            if (!cplx && k < 0) continue;
+                            if (!ctx.take("welch.power_peak", cfg_params(cplx != 0, c, wk).kv("N", N).kv("letter", SILN[L]).kv("k", k))) continue;
+                            const std::vector<char> g = sil_gate(L, N, wl, st, rem);
+                            const Sig u = gated(tone(cplx != 0, N, k, nfft, 0.3L, 1), g);
+                            ld acc = 0;
+                            int live = 0;
+                            for (int sgi = 0; sgi < S; ++sgi) {
+                                ld part = 0;
+                                for (int n = 0; n < wl; ++n)
+                                    if (g[(size_t)(sgi * st + n)]) part += w[(size_t)n];
+                                acc += part * part;
+                                if (part > 0) ++live;
+                            }
+                            const ld want1 = (cplx ? 1.0L : 0.5L) * acc / (ld)S / (sw * sw);
+                            if (!(want1 > 0)) continue;
+                            ctx.nontrivial();
+                            ctx.note(fmt("silence: power_peak %s, %d of %d segments live", cplx ? "complex" : "real", live, S));
+                            for (int ai = 0; ai < 3; ++ai) {
+                                const double A = amps[ai];
+                                const Res r = call_welch(scaled(u, A), w, c.nov, nfft, true, 0);
+                                if (!check_shape(ctx, r, cplx != 0, nfft)) break;
+                                double mx = 0;
+                                for (double v : r.pxx) mx = std::max(mx, v);
+                                const double want = (double)want1 * A * A, rel = std::fabs(mx / want - 1);
+                                ctx.worst("power peak rel err, silent segments", rel);
+                                if (!(rel <= 1e-9)) {
+                                    ctx.fail(site_of(cplx != 0), fmt("max(pxx)=%.15g", mx),
+                                             fmt("%.15g = mean over all %d segments of the gated tone's level", want, S),
+                                             P().kv("aspect", "peak").kv("amp", A).kv("ratio", mx / want));
+                                    break;
+                                }
+                            }
+                        }
+                    }
+                }
+                // ---- coherence with silent segments in x (and in its copies)
+                if (wk == WK_RECT || wk == WK_HAMM)
+                    for (int L : {0, 3, 5, 6})
+                        for (int yk = 0; yk < 3; ++yk) {
+                            static const char* YK[3] = {"x*3", "filtered", "independent"};
+                            P p = P().kv("nfft", nfft).kv("win", WKN[wk]).kv("winlen", wl).kv("nov", c.nov).kv("y", YK[yk]).kv("letter", SILN[L]);
+                            if (!ctx.take(yk == 0 ? "mscohere.scaled_copy" : "mscohere.range", p)) continue;
+                            Sig x = gated(dense(false, N, 53), sil_gate(L, N, wl, st, rem));
+                            if (L == 6) x.re[(size_t)(2 * st + wl / 2)] = 1.5;
+                            Sig y = x;
+                            if (yk == 0) y = scaled(x, 3);
+                            else if (yk == 1)
+                                for (int i = 0; i < N; ++i)
+                                    y.re[(size_t)i] = x.re[(size_t)i] + (i >= 1 ? 0.5 * x.re[(size_t)i - 1] : 0) - (i >= 2 ? 0.25 * x.re[(size_t)i - 2] : 0);
+                            else y = dense(false, N, 59);
+                            ctx.nontrivial();
+                            ctx.note("silence: mscohere");
+                            std::vector<double> coh;
+                            try {
+                                const arr_real o = mscohere(x.real_arr(), y.real_arr(), to_arr(w), c.nov, nfft);
+                                coh.assign(o.begin(), o.end());
+                            } catch (const std::exception& e) {
+                                ctx.fail("mscohere", std::string("threw: ") + e.what(), "coherence", P().kv("aspect", "threw"));
+                                continue;
+                            }
+                            if ((int)coh.size() != nfft / 2 + 1) {
+                                ctx.fail("mscohere", fmt("size %zu", coh.size()), fmt("%d", nfft / 2 + 1), P().kv("aspect", "size"));
+                                continue;
+                            }
+                            for (int k = 0; k < (int)coh.size(); ++k) {
+                                const double v = coh[(size_t)k];
+                                if (!(v >= -1e-12 && v <= 1 + 1e-12)) {
+                                    ctx.fail("mscohere", fmt("coh[%d]=%.17g", k, v), "in [0,1]", P().kv("aspect", "range").kv("k", k));
+                                    break;
+                                }
+                                if (yk == 0) {
+                                    ctx.worst("scaled copy |coh-1|, silent segments", std::fabs(v - 1));
+                                    if (!(std::fabs(v - 1) <= 1e-9)) {
+                                        ctx.fail("mscohere", fmt("coh[%d]=%.17g for y = 3x", k, v), "1 within 1e-9", P().kv("aspect", "one").kv("k", k));
+                                        break;
+                                    }
+                                }
+                            }
+                        }
+            }
+        }
+    }
+}
+
 // ------------------------------------------------------------------------------------------------ big sizes (both tiers)
 // Signals of 70 000 and 140 000 samples with nfft 256 and 8192 (window length = nfft): behaviour that only shows above a
 // size threshold (retained buffers, 32-bit products such as length * nfft/2, recurrences whose error grows with the index).
@@ -829,5 +1009,6 @@ int main(int argc, char** argv) {
     check_coherence(ctx, T);
     check_big(ctx);
     check_peak_winlens(ctx, T);
+    check_silence(ctx, T);
     return ctx.finish();
 }
